@@ -753,6 +753,68 @@ def evaluate_fresh(text, mkdata, timeout=10):
     return o
 
 
+_engines_lim = {}
+
+
+def engine_with_limit(n):
+    """engines with yaql.limitIterators = n (the limit itself is what is being compared)"""
+    if n not in _engines_lim:
+        _engines_lim[n] = yaql.YaqlFactory().create(options={"yaql.limitIterators": n})
+    return _engines_lim[n]
+
+
+def gen_lim_stages(rng, n, terminal=True):
+    """pipelines of the functions whose only iterable parameter is the receiver (what Model/Streams.v models under a limit)"""
+    stages, kind = [], None
+    for _ in range(rng.randrange(1, 4)):
+        k = rng.choice(["where", "select", "selectMany", "skip", "take", "takeWhile", "skipWhile", "append", "distinct", "enumerate",
+                        "accumulate", "delete", "replace", "memorize", "toList", "insert", "take", "skip"])
+        if k == "where":
+            stages.append(("where", rng.choice([("gt", 1), ("modeq", 2, 0), ("neq", 3), ("lt", 6)])))
+        elif k == "select":
+            stages.append(("select", rng.choice([("add", 1), ("mul", 2), ("mod", 3)])))
+        elif k == "selectMany":
+            stages.append(("selectMany", rng.choice([("pair",), ("add", 1)])))
+        elif k in ("skip", "take"):
+            stages.append((k, rng.randrange(-1, n + 3)))
+        elif k in ("takeWhile", "skipWhile"):
+            stages.append((k, rng.choice([("lt", 3), ("lt", 6), ("gt", 0)])))
+        elif k == "append":
+            stages.append(("append", tuple(rng.choice(INTS) for _ in range(rng.randrange(0, 3)))))
+        elif k == "distinct":
+            stages.append(("distinct", rng.choice([None, ("mod", 3)])))
+        elif k == "enumerate":
+            stages.append(("enumerate", rng.choice([None, 1])))
+            break
+        elif k == "accumulate":
+            stages.append(("accumulate", ("add2",), rng.choice([NOSEED, 0])))
+        elif k == "delete":
+            stages.append(("delete", rng.randrange(0, 4), rng.choice([None, 0, 2])))
+        elif k == "replace":
+            stages.append(("replace", rng.randrange(0, 4), 9, rng.choice([None, 2])))
+        elif k == "insert":
+            stages.append(("insert", rng.randrange(0, 4), 9))
+        else:
+            stages.append((k,))
+    if terminal and rng.random() < 0.35:
+        t = rng.choice(["first", "last", "any", "all", "indexOf", "indexWhere", "count", "len", "sum"])
+        if stages and stages[-1][0] == "enumerate":
+            t = rng.choice(["first", "last", "count", "len"])
+        if t in ("first", "last"):
+            stages.append((t, rng.choice([NOSEED, 7])))
+        elif t in ("any", "all"):
+            stages.append((t, rng.choice([("gt", 2), ("lt", 9)])))
+        elif t == "indexOf":
+            stages.append(("indexOf", rng.choice(INTS)))
+        elif t == "indexWhere":
+            stages.append(("indexWhere", ("gt", 3)))
+        elif t == "sum":
+            stages.append(("sum", 0))
+        else:
+            stages.append((t,))
+    return stages
+
+
 _engine_noconv = None
 
 
